@@ -10,7 +10,7 @@ order — that the declarative semantics (`Model/Spec.lean`) assigns to the quer
 Full target — CLOSED (`interp_eq_spec` below), under the decidable hypotheses `Hyps3`:
 
     theorem interp_eq_spec (S : SchemaView) (q : Spec.Query) (ir : IRQuery) (D : Data) (args) :
-        toIR S q = .ok ir → Hyps3 ⟨S, D, args, edges⟩ q ir →
+        toIR S q = .ok ir → Hyps3 ⟨S, D, args, edges⟩ q →
         (interpret { Env.ofData D args with useLimits := false } ir).toOption =
           (Spec.rows ⟨D, args, edges⟩ q).toOption
 
@@ -20,7 +20,8 @@ different *sites*; `toOption` identifies all failures.  The statement still says
 succeeds iff the other does, and then with equal row lists (`interp_ok_iff_spec_ok_F1`).
 
 `Hyps` / `Hyps3` (`Proofs/InterpSpec/HypsDef.lean`, `Proofs/InterpSpec4/HypsDef3.lean`; `Bool`,
-evaluated on every generated request by `Driver/C01Hyps.lean`):
+conditions on the query TREE, the schema, the dataset and the arguments only — nothing is assumed
+about the compiled query `ir`; evaluated on every generated request by `Driver/C01Hyps.lean`):
  * the specification's completion of the root / edge parameters selects the same table entries
    of the dataset as the frontend's (`paramsAgreeB`, root `start`);
  * every variable used by a filter has an argument; a regex pattern given as a variable compiles
@@ -31,10 +32,19 @@ evaluated on every generated request by `Driver/C01Hyps.lean`):
    panics only);
  * nesting depth ≤ 64 (the fuel of `Spec.rows`);
  * every edge kind lies in the fragment;
- * for a `@fold` (`Hyps3`): a fold with a count filter is never evaluated in a missing optional scope
-   (F-9 guard); every variable of a count filter has an argument; no fold of the compiled query
-   imports the same tag twice (`importsOKC ir`, the F-10 guard: `imported_tags.remove(..).unwrap()`
-   panics on the second removal);
+ * for a `@fold` (`Hyps3`): every variable of a count filter has an argument (and a regex pattern
+   compiles) — nothing else.  Two former guards are GONE, with the engine defects they excluded:
+   - F-9 (fixed: `apply_fold_specific_filter` no longer hits `unreachable!` when the fold sits in a
+     missing `@optional` scope; it pushes `Null` and the ordinary filter stage lets the context without
+     active vertex pass): a fold with a count filter may be evaluated in a missing optional scope; the
+     specification applies no count filter there, the interpreter passes the context through every
+     post-filter (`applyPostFilters_none`), and the per-filter set-up (argument present, regex compiles
+     [F-4], tag operand resolves) succeeds by `varOK` resp. the static certificate;
+   - F-10 (fixed: `reference_tag` pushes a tag onto a fold's `imported_tags` once): "no fold of the
+     compiled query imports a tag twice" (`importsOKC ir`) is now the THEOREM `importsOKC_of_toIR`
+     (`Proofs/InterpSpec4/StaticImports.lean`): imports are duplicate-free as `FieldRef`s
+     (`nodup_importsAt`), two tags on the same `(vertex, property)` carry the same type (an invariant of
+     the frontend's tag table), no fold imports what an enclosing fold imports, nor its own count;
  * for a `@recurse` edge: the dataset convention `recConvB` (a vertex failing the implicit coercion
    between recursion levels has no such edge: `hconv` of `recurse_is_reach`), and `paramsAgreeRecB`
    (the specification completes the edge parameters once, from the starting vertex' declaration).
@@ -117,18 +127,20 @@ inside `@optional` / `@recurse` scopes and inside other folds), outputs inside f
 lists (nested folds: lists of lists), `_x_count` outputs, count tags and count filters (on
 variables, on tags of the enclosing component, on counts of earlier folds, on the fold's own
 count), tags of enclosing components used inside folds at any depth (`imported_tags`), the defaults
-of a fold that does not exist (missing scope) or has no element.  Fold-count limits are disabled
-(`useLimits := false`: the reference semantics of C22). -/
+of a fold that does not exist (missing scope) or has no element, count filters of a fold that does
+not exist (they pass: F-9 fixed).  Fold-count limits are disabled (`useLimits := false`: the
+reference semantics of C22).  `Hyps3` speaks about the query tree only; what the proof needs about
+the compiled query (`importsOKC`, formerly a hypothesis: F-10) is derived from `h`. -/
 theorem interp_eq_spec (S : SchemaView) (q : Query) (ir : IRQuery) (D : Data)
     (args : List (Name × Value)) (edges : List EdgeDecl)
-    (h : toIR S q = .ok ir) (hh : Hyps3 ⟨S, D, args, edges⟩ q ir) :
+    (h : toIR S q = .ok ir) (hh : Hyps3 ⟨S, D, args, edges⟩ q) :
     (interpret { Env.ofData D args with useLimits := false } ir).toOption =
       (Spec.rows ⟨D, args, edges⟩ q).toOption :=
   interp_eq_spec_F3a_core S q ir D args edges false (Or.inl rfl) h hh
 
 theorem interp_ok_iff_spec_ok (S : SchemaView) (q : Query) (ir : IRQuery) (D : Data)
     (args : List (Name × Value)) (edges : List EdgeDecl)
-    (h : toIR S q = .ok ir) (hh : Hyps3 ⟨S, D, args, edges⟩ q ir) (rows : List Row) :
+    (h : toIR S q = .ok ir) (hh : Hyps3 ⟨S, D, args, edges⟩ q) (rows : List Row) :
     interpret { Env.ofData D args with useLimits := false } ir = .ok rows ↔
       Spec.rows ⟨D, args, edges⟩ q = .ok rows := by
   have := interp_eq_spec S q ir D args edges h hh
@@ -136,24 +148,24 @@ theorem interp_ok_iff_spec_ok (S : SchemaView) (q : Query) (ir : IRQuery) (D : D
     cases hs : Spec.rows ⟨D, args, edges⟩ q <;> simp_all [R.toOption]
 
 /-- The same theorem under its staging names (F3 / F3a: F3a was the stage without imported tags;
-the hypothesis `Hyps3` now only excludes DUPLICATE imports). -/
+`Hyps3` no longer mentions imports at all). -/
 theorem interp_eq_spec_F3 (S : SchemaView) (q : Query) (ir : IRQuery) (D : Data)
     (args : List (Name × Value)) (edges : List EdgeDecl)
-    (h : toIR S q = .ok ir) (hh : Hyps3 ⟨S, D, args, edges⟩ q ir) :
+    (h : toIR S q = .ok ir) (hh : Hyps3 ⟨S, D, args, edges⟩ q) :
     (interpret { Env.ofData D args with useLimits := false } ir).toOption =
       (Spec.rows ⟨D, args, edges⟩ q).toOption :=
   interp_eq_spec S q ir D args edges h hh
 
 theorem interp_eq_spec_F3a (S : SchemaView) (q : Query) (ir : IRQuery) (D : Data)
     (args : List (Name × Value)) (edges : List EdgeDecl)
-    (h : toIR S q = .ok ir) (hh : Hyps3 ⟨S, D, args, edges⟩ q ir) :
+    (h : toIR S q = .ok ir) (hh : Hyps3 ⟨S, D, args, edges⟩ q) :
     (interpret { Env.ofData D args with useLimits := false } ir).toOption =
       (Spec.rows ⟨D, args, edges⟩ q).toOption :=
   interp_eq_spec S q ir D args edges h hh
 
 theorem interp_ok_iff_spec_ok_F3a (S : SchemaView) (q : Query) (ir : IRQuery) (D : Data)
     (args : List (Name × Value)) (edges : List EdgeDecl)
-    (h : toIR S q = .ok ir) (hh : Hyps3 ⟨S, D, args, edges⟩ q ir) (rows : List Row) :
+    (h : toIR S q = .ok ir) (hh : Hyps3 ⟨S, D, args, edges⟩ q) (rows : List Row) :
     interpret { Env.ofData D args with useLimits := false } ir = .ok rows ↔
       Spec.rows ⟨D, args, edges⟩ q = .ok rows :=
   interp_ok_iff_spec_ok S q ir D args edges h hh rows
@@ -195,14 +207,38 @@ def exQ4 : Query :=
     .edge "e" [] (.fold [])
       (.mk none [.prop "n" [.output "o2", .filter (.bin .greaterThanOrEqual) (.tag "t")]])]⟩
 
+example : Hyps3 ⟨exS, exD, [], []⟩ exQ4 := by decide
+/-- … and the fold of `exQ4` does import a tag; the imports are in order (here decided, in general
+`importsOKC_of_toIR`). -/
 example : (match toIR exS exQ4 with
-    | .ok ir => decide (Hyps3 ⟨exS, exD, [], []⟩ exQ4 ir) &&
+    | .ok ir => importsOKC [] ir.rootComponent &&
         !(match ir.rootComponent.folds with | f :: _ => f.imports.isEmpty | [] => true)
     | .error _ => false) = true := by decide
 
-example : (match toIR exS exQ3 with
-    | .ok ir => decide (Hyps3 ⟨exS, exD, [("v", .int64 0)], []⟩ exQ3 ir)
-    | .error _ => false) = true := by decide
+example : (toIR exS exQ3).isOk = true := by decide
+example : Hyps3 ⟨exS, exD, [("v", .int64 0)], []⟩ exQ3 := by decide
+
+/-- Regression for the F-9 fix — a count-filtered fold under an `@optional` edge (formerly excluded by
+the F-9 guard of `Hyps3`):
+`{ R { n @output(o1) e @optional { n @output(o2) e @fold @transform(count) @output(c) @filter(>=, $v) { n @output(o3) } } } }`.
+For the start vertex `1` the optional edge is missing, so the fold "does not exist": the real engine
+used to panic there (`unreachable!`), the specification lets the count filter pass. -/
+def exQ5 : Query :=
+  ⟨"R", [], .mk none [.prop "n" [.output "o1"],
+    .edge "e" [] .optional (.mk none [.prop "n" [.output "o2"],
+      .edge "e" [] (.fold [.countOutput "c", .countFilter (.bin .greaterThanOrEqual) (.var "v")])
+        (.mk none [.prop "n" [.output "o3"]])])]⟩
+
+example : (toIR exS exQ5).isOk = true := by decide
+example : Hyps3 ⟨exS, exD, [("v", .int64 1)], []⟩ exQ5 := by decide
+example (ir : IRQuery) (h : toIR exS exQ5 = .ok ir) :
+    (interpret { Env.ofData exD [("v", .int64 1)] with useLimits := false } ir).toOption =
+      (Spec.rows ⟨exD, [("v", .int64 1)], []⟩ exQ5).toOption :=
+  interp_eq_spec exS exQ5 ir exD [("v", .int64 1)] [] h (by decide)
+/-- The hypotheses still exclude what they must: without the argument `v` the engine fails as soon as
+the pipeline is built (`query_arguments[variable]`), whereas the specification looks the variable up
+only when a row reaches the count filter with an existing fold. -/
+example : ¬ Hyps3 ⟨exS, exD, [], []⟩ exQ5 := by decide
 
 end TF.C01
 
